@@ -20,6 +20,10 @@ var c20Plants = []string{
 	// 5: string keys against name / integer keys with the same text, the empty string key, literal keys the check does not look at
 	"local t%d = { [\"!k\"] = 1, [k] = 2 }", "local t%d = { [\"#int1\"] = 1, [1] = 2 }", "local t%d = { [\"\"] = 1, [\"\"] = 2 }", "local t%d = { [\"\"] = 1, x = 2 }",
 	"local t%d = { [true] = 1, [true] = 2 }", "local t%d = { [1.5] = 1, [1.50] = 2 }", "local t%d = { [-1] = 1, [-1] = 2 }", "local t%d = { [-1] = 1, [1] = 2 }", "local t%d = { [k] = 1, [\"k\"] = 2, k = 3 }",
+	// 5: boolean, float (by value) and unary-operator keys
+	"local t%d = { [1.5] = 1, [15e-1] = 2, [2.5] = 3 }", "local t%d = { [true] = 1, [false] = 2, [true] = 3 }", "local t%d = { [not true] = 1, [not true] = 2, [not false] = 3 }",
+	"local t%d = { [-k] = 1, [-k] = 2 }", "local t%d = { [- 1] = 1, [-1] = 2, [~1] = 3, [~1] = 4 }", "local t%d = { [#\"ab\"] = 1, [#\"ab\"] = 2, [#\"abc\"] = 3 }", "local t%d = { [2.5] = 1, [-2.5] = 2, [- -2.5] = 3 }",
+	"local t%d = { [1] = 1, [1.0] = 2, [\"1.0\"] = 3, [true] = 4, [\"true\"] = 5 }", "local t%d = { [0.5] = 1, [.5] = 2, [5e-1] = 3, [0.50] = 4 }",
 	"local t%d = { [1] = 1, [2] = 2, [1] = 3, [2] = 4 }", "local t%d = { [f()] = 1, [f()] = 2 }", "local t%d = { [M.a] = 1, [M.a] = 2 }",
 	// 7 assignment arity
 	"%v, %v = 1, 2, 3", "%v, %v = 1", "%v, %v = f()", "%v, %v = 1, 2", "%v = 1, 2", "%v, %v, %v = 1, %v",
@@ -136,7 +140,6 @@ func genC20Program(r *lib.Rng) string {
 }
 
 const c20K1 = "identical operands of a comparison / and / or that are not plain access paths (a literal, a call, an operator or a computed index occurs in them: 1 == 1, t[1] == t[1], f() == f(), x + 1 == x + 1) are not reported as type 14: cgBinopExp gives up as soon as the operand name contains a '#' placeholder"
-const c20K2 = "a repeated boolean, float or negated-number key of a table constructor ({ [true] = 1, [true] = 2 }, { [1.5] = 1, [1.5] = 2 }, { [-1] = 1, [-1] = 2 }) is not reported as type 5: GetTableConstuctorKeyStr only knows integer, string and name keys"
 
 var c20Types = map[int]bool{5: true, 7: true, 8: true, 13: true, 14: true, 15: true, 16: true, 19: true, 20: true, 21: true}
 
@@ -214,7 +217,7 @@ func runC20(res *lib.Result, tier string, seed int64, args []string) error {
 			continue
 		}
 		// types 14 and 5 against the full-width specification (Spec/Pat.lean): the model may only report less,
-		// and what it leaves out is the two recorded classes (Props/C20 sameOperands_exact / dupKeys_exact)
+		// and what it leaves out is the recorded class K1 (Props/C20 sameOperands_exact); type 5 is exact (dupKeys_iff_spec)
 		inSpec := map[string]bool{}
 		for _, x := range spec {
 			inSpec[x] = true
@@ -233,7 +236,9 @@ func runC20(res *lib.Result, tier string, seed int64, args []string) error {
 			if strings.HasPrefix(x, "14@") {
 				res.HitKnown("C20-K1", c20K1, src+"\nnot reported: "+x)
 			} else {
-				res.HitKnown("C20-K2", c20K2, src+"\nnot reported: "+x)
+				// type 5: the model reports exactly what the specification asks for (theorem dupKeys_iff_spec; the former
+				// class K2 — boolean, float and negated keys — was repaired)
+				res.AddViolation("model-vs-spec", fmt.Sprintf("the specification asks for %s, the model does not report it", x), src, false)
 			}
 		}
 	}
